@@ -37,7 +37,7 @@ func blockingUnderLocks(c *Ctx, rule string, eff *Effects, pkgs []string) {
 			}
 			nFns++
 			c.Analysed(fnName(f))
-			e := &PPA{MaxVisits: 2,
+			e := &PPA{NoAuto: true, MaxVisits: 2,
 				Inline: func(fr *Frame, call ssa.CallInstruction, callee *ssa.Function) bool { return callee.Parent() == fr.Fn },
 				Watch: func(ev *Ev) bool {
 					return isLockOp(ev) || strings.HasPrefix(ev.Label, "send:") || strings.HasPrefix(ev.Label, "recv:") || strings.HasPrefix(ev.Label, "select:") || strings.HasPrefix(ev.Label, "call:")
